@@ -15,7 +15,7 @@ Definition bound (s : st) (h : nat) : Prop := exists t v, vars s t v = Some h.
    whose last wrapper it removed (it is the one that deletes it) *)
 Definition hm (p : pc) : option nat :=
   match p with
-  | PMal2 _ _ m _ | PSl1 _ m => Some m
+  | PMal2 _ _ m _ _ | PSl1 _ m => Some m
   | PDrop1 m (Some true) => Some m
   | PMemRel m | PBuf1 m _ _ | PBufBytes m _ | PBufWr m _ _ | PBufDev m _ | PMemEnd m => Some m
   | _ => None
@@ -24,7 +24,7 @@ Definition hm (p : pc) : option nat :=
 (* the modeBuffer_t a thread holds exclusively *)
 Definition hb (p : pc) : option nat :=
   match p with
-  | PMal1 _ b _ => Some b
+  | PMal1 _ b _ _ => Some b
   | PBuf1 _ b (Some true) => Some b
   | PBufBytes _ b | PBufWr _ b _ | PBufDev _ b => Some b
   | _ => None
@@ -33,7 +33,7 @@ Definition hb (p : pc) : option nat :=
 (* bytes of buffers that exist but are not (or no longer) in the counter, per thread in flight *)
 Definition pend (s : st) (p : pc) : Z :=
   match p with
-  | PMal1 _ _ sz | PMal2 _ _ _ sz | PMal3 sz => sz
+  | PMal1 _ _ sz _ | PMal2 _ _ _ sz _ | PMal3 sz _ => sz
   | PBufDev _ b => bsize s b
   | _ => 0%Z
   end.
@@ -67,9 +67,9 @@ Definition building (s : st) (i h : nat) : Prop :=
 
 Definition local (s : st) (i : nat) (p : pc) : Prop :=
   match p with
-  | PIdle | PMal3 _ | PMalEnd => True
-  | PMal1 h b _ => building s i h /\ bheld s b 0
-  | PMal2 h _ m _ => building s i h /\ mheld s m 0
+  | PIdle | PMal3 _ _ | PMalEnd _ | PMalRet _ => True
+  | PMal1 h b _ _ => building s i h /\ bheld s b 0
+  | PMal2 h _ m _ _ => building s i h /\ mheld s m 0
   | PSl1 h m => building s i h /\ mheld s m 0
   | PDrop1 m (Some true) => mheld s m 0
   | PDrop1 _ (Some false) => True
@@ -81,7 +81,7 @@ Definition local (s : st) (i : nat) (p : pc) : Prop :=
   | PBufBytes m b => mheld s m 1 /\ bheld s b 1
   | PBufDev m b => mheld s m 1 /\ bheld s b 1
   | PMemEnd m => mheld s m 1
-  | PMalWr _ _ | PBufWr _ _ _ => False
+  | PMalWr _ _ _ | PBufWr _ _ _ => False
   end.
 
 (* ---------------------------------------------------------------- the invariant *)
